@@ -281,6 +281,26 @@ func c02CLI(c *fw.Ctx, cs c02Case, text string, recs []sm.Record, o clidrv.Opts,
 		}
 	}
 	if now {
+		// `klog today --now`: its All row evaluates the same records at the same instant
+		r = clidrv.Run(home, o, "today", "--now", "--diff", "--decimal", "--no-style", "--no-warn", path)
+		if r.Panicked || r.Code != 0 {
+			c.Violation("cli-today", cs, fmt.Sprintf("`klog today --now --diff` failed (exit %d, panic %v): %s", r.Code, r.PanicVal, r.Err))
+			return
+		}
+		found := false
+		for _, l := range strings.Split(r.Stdout, "\n") {
+			f := strings.Fields(l)
+			if len(f) >= 4 && f[0] == "All" {
+				found = true
+				if f[1] != strconv.Itoa(wantTotal) || strings.TrimSuffix(f[2], "!") != strconv.Itoa(wantShould) || strings.TrimPrefix(f[3], "+") != strconv.Itoa(wantTotal-wantShould) {
+					c.Violation("cli-today", cs, fmt.Sprintf("`klog today --now --diff --decimal` shows All = %s / %s / %s, expected total %d, should %d, diff %d\n%s", f[1], f[2], f[3], wantTotal, wantShould, wantTotal-wantShould, r.Stdout))
+					return
+				}
+			}
+		}
+		if !found {
+			c.Violation("cli-today", cs, fmt.Sprintf("`klog today --now --diff --decimal` has no All row:\n%s", r.Stdout))
+		}
 		return // print has no --now
 	}
 	// print --with-totals: the left column carries the record total on the headline and the entry value on each entry line
